@@ -69,6 +69,8 @@ def hook(rd, e, st, ctx):
     k = e.get('k')
     if k == 'Store':
         l = strip_casts(e['lhs'])
+        while l.get('k') == 'MCall' and l.get('m') in ('noalias', 'derived') and not l.get('args'):
+            l = strip_casts(l['obj'])              # X.noalias() = ... stores into X
         val = e['value']
         # element store M(i,j) = v / v[i] = v
         if l.get('k') == 'Op' and l.get('op') in ('()', '[]'):
